@@ -19,6 +19,7 @@ import (
 	"path/filepath"
 	"strconv"
 	"strings"
+	"sync/atomic"
 	"time"
 
 	"entgo.io/ent/dialect"
@@ -48,7 +49,10 @@ type epWorld struct {
 	nextId  string
 	cl      []*epClient
 	closeFn func()
+	tainted bool // a client got stuck: the history is abandoned
 }
+
+var entProtoAbandoned atomic.Int64
 
 func newEpWorld(scratch string, n int) (*epWorld, error) {
 	gatedrv.Register()
@@ -103,8 +107,11 @@ func (w *epWorld) wait(c *epClient) string {
 	case r := <-c.done:
 		c.state, c.resp = "fin", r
 		return "fin"
-	case <-time.After(10 * time.Second):
+	case <-time.After(60 * time.Second):
+		// the client neither reached its next statement nor returned: the harness cannot tell what it will still do
+		// (it keeps running in the background). The history is abandoned (see entProtoExec), never judged.
 		c.state = "stuck"
+		w.tainted = true
 		return "stuck"
 	}
 }
@@ -317,6 +324,10 @@ func entProtoExec(scratch string) sim.Exec {
 				break
 			}
 		}
+		if w.tainted {
+			entProtoAbandoned.Add(1)
+			return []string{h.Header, "end"}
+		}
 		// the final database, read by an ungated call
 		ts, err := w.repo.Find(context.Background(), def.TaskQueryParam{}, 0, -1)
 		if err == nil {
@@ -463,6 +474,7 @@ func cmdEntProto(args []string) {
 	}
 	rep.Histories = len(hists)
 	rep.Distinct = distinctCount(hists)
+	rep.Dist["histories abandoned (a client did not reach its next statement within 60 s)"] = int(entProtoAbandoned.Load())
 	for i := 0; i < len(hists) && i < 1; i++ {
 		rep.Samples = append(rep.Samples, hists[i])
 	}
